@@ -21,6 +21,8 @@ import JanetModel.Lib.BufPushC
 import JanetModel.Lib.StrReplC
 import JanetModel.Lib.Boot3
 import JanetModel.Lib.Boot5
+import JanetModel.Lib.Boot6
+import JanetModel.Lib.Boot8
 open Driver JanetModel.Lib
 
 inductive V where
@@ -154,6 +156,25 @@ def keyfn (name : String) : Option (Int → Int) :=
   match name with
   | "mod4" => some (· % 4) | "abs" => some (fun x => (x.natAbs : Int)) | "neg" => some (fun x => -x) | "id" => some id
   | "sq" => some (fun x => x * x) | _ => none
+
+/-- functions for `keep` (nil = none), `mapcat` (an indexed result), and their two-sequence forms -/
+def keepfn (name : String) : Option (Int → Option Int) :=
+  match name with
+  | "sqeven" => some (fun x => if x % 2 == 0 then some (x * x) else none)
+  | "posid" => some (fun x => if x > 0 then some x else none)
+  | "id" => some (fun x => some x) | "inc" => some (fun x => some (x + 1)) | _ => none
+def catfn (name : String) : Option (Int → List Int) :=
+  match name with
+  | "pairx" => some (fun x => [x, x + 1]) | "rep3" => some (fun x => List.replicate (x % 3).toNat x)
+  | "none" => some (fun _ => []) | _ => none
+def keep2fn (name : String) : Option (Int → Int → Option Int) :=
+  match name with
+  | "ltsum" => some (fun x y => if x < y then some (x + y) else none)
+  | "add" => some (fun x y => some (x + y)) | "snd" => some (fun _ y => some y) | _ => none
+def cat2fn (name : String) : Option (Int → Int → List Int) :=
+  match name with
+  | "tup" => some (fun x y => [x, y]) | "tupsum" => some (fun x y => [x + y])
+  | "tup3" => some (fun x y => [y, x, y]) | _ => none
 
 def ints (l : List V) : Option (List Int) := l.mapM (fun v => match v with | .int i => some i | _ => none)
 
@@ -601,6 +622,38 @@ def call (f : String) (args : List V) : Out :=
        let r := List.zipWith (fun (p : Int × Int) z => g p.1 p.2 z) (List.zip xs ys) zs
        withMirror (Boot.map3 g xs ys zs) (some r) args (.ok (.seq 1 (r.map V.int)) args)
      | _, _, _, _ => .skip)
+  | "keep", [.fn p, .seq _ l] =>
+    (match keepfn p, ints l with
+     | some p, some xs => withMirror (Boot.keep1 p xs) (some (xs.filterMap p)) args (.ok (.seq 1 ((xs.filterMap p).map V.int)) args)
+     | _, _ => .skip)
+  | "keep", [.fn p, .seq _ l, .seq _ l2] =>
+    (match keep2fn p, ints l, ints l2 with
+     | some p, some xs, some ys =>
+       let r := (List.zip xs ys).filterMap (fun q => p q.1 q.2)
+       withMirror (Boot.keep2 p xs ys) (some r) args (.ok (.seq 1 (r.map V.int)) args)
+     | _, _, _ => .skip)
+  | "mapcat", [.fn g, .seq _ l] =>
+    (match catfn g, ints l with
+     | some g, some xs => withMirror (Boot.mapcat1 g xs) (some (xs.flatMap g)) args (.ok (.seq 1 ((xs.flatMap g).map V.int)) args)
+     | _, _ => .skip)
+  | "mapcat", [.fn g, .seq _ l, .seq _ l2] =>
+    (match cat2fn g, ints l, ints l2 with
+     | some g, some xs, some ys =>
+       let r := (List.zip xs ys).flatMap (fun q => g q.1 q.2)
+       withMirror (Boot.mapcat2 g xs ys) (some r) args (.ok (.seq 1 (r.map V.int)) args)
+     | _, _, _ => .skip)
+  | "count", [.fn p, .seq _ l, .seq _ l2] =>
+    (match cmp p, ints l, ints l2 with
+     | some p, some xs, some ys =>
+       let r := (List.zip xs ys).countP (fun q => p q.1 q.2)
+       withMirror (Boot.count2 p xs ys) (some r) args (.ok (.int r) args)
+     | _, _, _ => .skip)
+  | "group-by", [.fn kf, .seq _ l] =>
+    (match keyfn kf, ints l with
+     | some key, some xs =>
+       let r := groupBy key xs
+       withMirror (Boot.groupBy key xs) (some r) args (.ok (.tbl 1 (r.map (fun kv => (V.int kv.1, V.seq 1 (kv.2.map V.int))))) args)
+     | _, _ => .skip)
   | "find", [.fn p, .seq _ l] =>
     (match pred p, ints l with
      | some p, some xs => withMirror (Boot.find p xs) (some (xs.find? p)) args (.ok ((xs.find? p).elim V.nil V.int) args)
@@ -628,11 +681,14 @@ def call (f : String) (args : List V) : Out :=
      | _ => .skip)
   | "interleave", cols =>
     (match cols.mapM indexedOf with
+     | some [c0] => withMirror (Boot.interleave1 c0) (some (interleave [c0])) args (.ok (.seq 1 (interleave [c0])) args)
+     | some [c0, c1] => withMirror (Boot.interleave2 c0 c1) (some (interleave [c0, c1])) args (.ok (.seq 1 (interleave [c0, c1])) args)
      | some cs => .ok (.seq 1 (interleave cs)) args
      | none => .skip)
-  | "interpose", [sep, .seq _ l] => .ok (.seq 1 (interpose sep l)) args
+  | "interpose", [sep, .seq _ l] => withMirror (Boot.interpose sep l) (some (interpose sep l)) args (.ok (.seq 1 (interpose sep l)) args)
   | "distinct", [.seq _ l] => withMirror (Boot.distinct l) (some (distinct l)) args (.ok (.seq 1 (distinct l)) args)
-  | "frequencies", [.seq _ l] => .ok (.tbl 1 ((frequencies l).map (fun kv => (kv.1, V.int kv.2)))) args
+  | "frequencies", [.seq _ l] =>
+    withMirror (Boot.frequencies l) (some (frequencies l)) args (.ok (.tbl 1 ((frequencies l).map (fun kv => (kv.1, V.int kv.2)))) args)
   | "merge", colls =>
     (match colls.mapM (fun v => match v with | .tbl _ l => some l | _ => none) with
      | some cs => .ok (.tbl 1 (merge cs)) args
@@ -673,7 +729,8 @@ def call (f : String) (args : List V) : Out :=
   | "sort", (.seq 1 l) :: rest | "sorted", (.seq k l) :: rest =>
     (match ints l, (match rest with | [] => cmp "lt" | [.fn c] => cmp c | _ => none) with
      | some xs, some before =>
-       (match Sort.sort (fun a b => decide (a ≤ b)) before xs.toArray with
+       (match (if f == "sort" then Sort.sort (fun a b => decide (a ≤ b)) before xs.toArray
+               else Boot.sorted (fun a b => decide (a ≤ b)) before xs) with
         | .ok r =>
           let rv := V.seq 1 (r.toList.map V.int)
           if f == "sort" then .ok rv (setArg0 args rv) else .ok rv args
@@ -683,7 +740,8 @@ def call (f : String) (args : List V) : Out :=
   | "sort-by", [.fn kf, .seq 1 l] | "sorted-by", [.fn kf, .seq _ l] =>
     (match ints l, keyfn kf with
      | some xs, some key =>
-       (match Sort.sort (fun a b => decide (a ≤ b)) (fun a b => decide (key a < key b)) xs.toArray with
+       (match (if f == "sort-by" then Boot.sortBy (fun a b => decide (a ≤ b)) (fun (a b : Int) => decide (a < b)) key xs.toArray
+               else Boot.sortedBy (fun a b => decide (a ≤ b)) (fun (a b : Int) => decide (a < b)) key xs) with
         | .ok r =>
           let rv := V.seq 1 (r.toList.map V.int)
           if f == "sort-by" then .ok rv [.fn kf, rv] else .ok rv args
